@@ -343,6 +343,12 @@ func (c *ClientConn) maybePrepareAndExecute(request Request, raw *frame.RawFrame
 		maybeUnprepared = primitive.ErrorCode(code) == primitive.ErrorCodeUnprepared
 	}
 
+	if _, isOwnPrepare := request.(*prepareRequest); isOwnPrepare {
+		// An unprepared error in response to the proxy's own prepare request (see below) can't be recovered from by
+		// preparing again: the prepare request would be wrapped in another one and can't be re-executed.
+		maybeUnprepared = false
+	}
+
 	if maybeUnprepared {
 		frm, err := c.getCodec().ConvertFromRawFrame(raw)
 		if err != nil {
